@@ -11,7 +11,12 @@
          variable throughout the case) | r<hex> (temporary std::string) | l<hex> (const char*, NUL-free) | c<hex byte> (char)
        | i<dec> (long) | d<dec> (double, integer value) | b0 b1 (bool) | f<dec> (double z + 1/2)
        | h<dec> x<dec> w<dec> t0 t1 (user types that leave hex / fixed+precision 2 / fill+left / boolalpha on the stream)
-       | mhex mboolalpha mshowbase mshowpos muppercase mfixed mleft msetprecision<n> msetw<n> msetfill<hex byte> *)
+       | mhex mboolalpha mshowbase mshowpos muppercase mfixed mleft msetprecision<n> msetw<n> msetfill<hex byte>
+       | v<k><hex>  an argument with an operator<< AND (optionally) a conversion to a string type, payload text <hex> (NUL-free):
+           vt type with implicit operator std::string() (<< prints <text>)      vp std::filesystem::path (<< prints it quoted)
+           vk type with implicit operator const char*() (<< prints [text])      ve type with EXPLICIT operator std::string() (<< prints (text))
+           vv std::string_view     va char[16] (text of at most 15 bytes)        vo type with an operator<< only (prints #text)
+         the model (FormatModel.dual) gives such an argument both texts; render is the stream text *)
 let z_of_dec (d : string) : z =
   if String.length d <= 17 then z_of_int (int_of_string d)
   else (match read_dec (List.init (String.length d) (fun i -> byte_of_int (Char.code d.[i]))) with
@@ -46,6 +51,13 @@ let parse_arg0 (w : string) : arg =
   | 'w' -> APadder (z_of_dec (tail w 1))
   | 't' -> ABoolAlpha (parse_bool (tail w 1))
   | 'm' -> AManip (parse_manip (tail w 1))
+  | 'v' when String.length w >= 3 ->
+      let s = str_of_hex (tail w 2) in
+      if List.mem X00 s then failwith "dual" else
+      let k = (match w.[1] with 't' -> KTagged | 'p' -> KPath | 'k' -> KCstr | 'e' -> KExplicit | 'v' -> KView
+                              | 'a' -> if List.length s > 15 then failwith "array" else KArray
+                              | 'o' -> KStreamOnly | _ -> failwith "dual") in
+      dual k s
   | _ -> failwith "arg"
 let parse_arg (w : string) : arg =
   let a = parse_arg0 w in
